@@ -1,7 +1,7 @@
 \* EXPECTED VIOLATION ExactlyOnceFIFO: mutant lifo
 CONSTANTS NTx = 3 Kind <- KindS Sender <- SenderS Nonce <- NonceS NAccs = 1 Accs <- MCAccs StartEmpty = FALSE
-  Max = 3 NPushers = 1 NConsumers = 1 Batch = 2
-  MaxPush = 4 MaxBlocks = 1 MaxFail = 0 MaxCrash = 0 MaxClose = 1 MaxPops = 2 MaxExecErr = 0
+  Max = 3 NPushers = 1 NConsumers = 0 Batch = 2
+  MaxPush = 4 MaxBlocks = 1 MaxFail = 0 MaxCrash = 0 MaxClose = 1 MaxPops = 2 MaxExecErr = 0 MaxFatal = 0
   DedupFix = TRUE OverflowFix = TRUE Mutant = "lifo"
 INIT Init
 NEXT Next
